@@ -508,13 +508,14 @@ def run(chk):
         tri = list(itertools.product(nonflex, repeat=3)) + [(a, b, 'flex') for a in nonflex for b in nonflex]
         tri += [('bitfield',) * 4, ('prim', 'bitfield', 'bitfield', 'bitfield'), ('bitfield', 'bitfield', 'prim', 'bitfield')]
     seqs += tri
-    heavy = {('bitfield', 'bitfield', 'bitfield'): 'size0', ('nested', 'bitfield', 'bitfield'): 'size1',
-             ('prim', 'bitfield', 'bitfield'): 'size1', ('bitfield',) * 4: 'size0',
-             ('prim', 'bitfield', 'bitfield', 'bitfield'): 'size1', ('bitfield', 'bitfield', 'prim', 'bitfield'): 'size0'}
+    heavy = {('bitfield', 'bitfield', 'bitfield'): ('size0',), ('nested', 'bitfield', 'bitfield'): ('size1',),
+             ('prim', 'bitfield', 'bitfield'): ('size1',), ('bitfield',) * 4: ('size0', 'size1', 'size2'),
+             ('prim', 'bitfield', 'bitfield', 'bitfield'): ('size1', 'size2'), ('bitfield', 'bitfield', 'prim', 'bitfield'): ('size0', 'size1')}
     for seq in seqs:
         if seq in heavy:
-            for v in (1, 2, 4, 8):
-                cases.append(P + (seq, False, 0, {heavy[seq]: v}))
+            # the heaviest shapes are split over workers by fixing the storage sizes of some bit-fields
+            for vs in itertools.product((1, 2, 4, 8), repeat=len(heavy[seq])):
+                cases.append(P + (seq, False, 0, dict(zip(heavy[seq], vs))))
         else:
             cases.append(P + (seq, False, 0))
         if 'flex' not in seq:
